@@ -41,6 +41,57 @@ def showDS : DS → String
 
 def b01 (b : Bool) : String := if b then "1" else "0"
 
+def parseNatList (s : String) : Option (List Nat) :=
+  if s == "-" then some [] else (s.splitOn ".").mapM (fun x => x.toNat?)
+
+def parseCtx (s : String) : Option (Option (List Nat)) :=
+  if s == "x" then some none else (parseNatList s).map some
+
+def parseHist (s : String) : Option (List (Int × List Nat)) :=
+  if s == "-" then some [] else
+  (s.splitOn ";").mapM (fun e => match e.splitOn ":" with
+    | [h, v] => match h.toInt?, parseNatList v with
+      | some h, some v => some (h, v)
+      | _, _ => none
+    | _ => none)
+
+def parseItems : List String → Option (List Item)
+  | [] => some []
+  | "g" :: j :: rest => match j.toNat?, parseItems rest with
+    | some j, some r => some (Item.garbage j :: r)
+    | _, _ => none
+  | k :: a :: rest => match parseDS k a, parseItems rest with
+    | some m, some r => some (Item.msg m :: r)
+    | _, _ => none
+  | _ => none
+
+def showPre : Pre → String
+  | Pre.ok => "ok" | Pre.disabled => "disabled" | Pre.fromSet => "from" | Pre.decode => "decode" | Pre.invalid => "invalid"
+
+def showHnd : Hnd → String
+  | Hnd.ok => "ok" | Hnd.noHandler => "none" | Hnd.format => "format" | Hnd.conflict => "conflict"
+  | Hnd.future => "future" | Hnd.signer => "signer" | Hnd.context => "context" | Hnd.call => "call"
+
+def parseReport (toks : List String) : Option (Report × Env) :=
+  match toks with
+  | rev :: bh :: call :: from_ :: hasData :: tag :: ord :: ctx :: hist :: items =>
+    match rev.toNat?, bh.toInt?, call.toNat?, hasData.toNat?, parseCtx ctx, parseHist hist, parseItems items with
+    | some rev, some bh, some call, some hasData, some ctx, some hist, some items =>
+      let sender := if from_ == "n" then some From.none else if from_ == "s" then some From.signed
+        else if from_ == "u" then some From.unsigned else none
+      let tag := if tag == "v" then some Tag.vote else if tag == "p" then some Tag.proposal
+        else if tag == "o" then some Tag.other else none
+      let ord := if ord == "lt" then some 0 else if ord == "eq" then some 1 else if ord == "gt" then some 2
+        else if ord == "na" then some 0 else none
+      match sender, tag, ord with
+      | some sender, some tag, some ord =>
+        if rev > 1 ∨ call > 1 ∨ hasData > 1 then none else
+        some ({ hasData := hasData == 1, tag := tag, items := items, ord := ord, ctx := ctx, sender := sender },
+              { revOn := rev == 1, blockHeight := bh, history := hist, callOk := call == 1 })
+      | _, _, _ => none
+    | _, _, _, _, _, _, _ => none
+  | _ => none
+
 def step (l : Log) (toks : List String) : Log × String :=
   match toks with
   | ["reset"] => ([], "ok")
@@ -48,6 +99,13 @@ def step (l : Log) (toks : List String) : Log × String :=
     match parseDS k1 a, parseDS k2 b with
     | some x, some y => (l, b01 (conflict x y))
     | _, _ => (l, "bad-op")
+  | "rep" :: rest =>
+    match parseReport rest with
+    | some (r, e) =>
+      -- without a report body Verify fails and nothing else can be asked of the transaction
+      if !r.hasData then (l, "V=err P=- H=-") else
+      (l, s!"V={if verifyTx r then "ok" else "err"} P={showPre (preValidate r e)} H={showHnd (handler r e)}")
+    | none => (l, "bad-op")
   | ["mn", a, b] =>
     match a.toNat?, b.toNat? with
     | some a, some b => if a < 2^32 ∧ b < 2^32 then (l, b01 (matchNID a b)) else (l, "bad-op")
